@@ -49,6 +49,9 @@ def oracle(spec, impl):
 
 def gen(ctx):
     r = ctx.rng.random()
+    if r < 0.12:
+        from . import c20
+        return c20.gen_pull(ctx.rng)   # producers -> pull-based component(s) -> consumer, two outputs, diamonds, delayed paths
     if r < 0.5:
         return sc.gen_dag(ctx.rng)
     if r < 0.75:
